@@ -9,6 +9,7 @@ import (
 )
 
 func (rt *runtime) cmplEvaluateNodeExpression(node nodeExpression) Value {
+	verifStep(rt)
 	// Allow interpreter interruption
 	// If the Interrupt channel is nil, then
 	// we avoid runtime.Gosched() overhead (if any)
